@@ -24,6 +24,8 @@ Simple == <<<<R(1, 0, NoA)>>>>
 TruthsT == {[Base EXCEPT !.fr = fr, !.tr = tr, !.cues = <<Cue(tp[1], tp[2], 0, 0, NoA, Simple)>>] :
               fr \in {0, 24, 25, 30}, tr \in {0, 1000, 90000, 10000000},
               tp \in {<<0, 1500>>, <<5000, 67000>>, <<3600000, 3723400>>, <<500, 17040>>, <<12120, 180000>>, <<90000, 5400000>>}}
+           \* a high frame rate: frame numbers of three digits (00:00:01:105 at 120 frames per second)
+           \cup {[Base EXCEPT !.fr = 120, !.cues = <<Cue(tp[1], tp[2], 0, 0, NoA, Simple)>>] : tp \in {<<250, 1875>>, <<1000, 3600925>>}}
 
 LinesB == {<<<<R(1, 0, NoA)>>, <<R(2, 0, NoA)>>>>,
            <<<<R(1, 0, A1)>>, <<R(2, 0, A1)>>>>,
